@@ -467,6 +467,40 @@ pub fn run(p: &Params) -> Outcome {
                 }
             }
 
+            // collections whose element count sits on either side of a power of two (pre-allocation caps, chunked loops and size
+            // prefixes change behaviour there), alone and followed by another value in an enclosing sequence
+            if i == 0 && shard == 0 {
+                let counts: &[usize] = if scale == "miri" { &[64, 65] } else {
+                    &[63, 64, 65, 255, 256, 257, 1023, 1024, 1025, 4095, 4096, 4097, 8191, 8192, 8193, 16383, 16384, 16385, 65535, 65536, 65537, 100_003] };
+                for &n in counts {
+                    let v: Vec<i32> = (0..n as i32).map(|k| k.wrapping_mul(7919)).collect();
+                    let expected = refmodel::encode(&Ty::Seq(Box::new(Ty::I32)), &v.to_val()).unwrap();
+                    roundtrip!(&mut out, "Vec<i32>@count", Vec<i32>, v, &expected, |e| e.encode(&v));
+                    let vs: Vec<String> = (0..n).map(|k| if k % 3 == 0 { String::new() } else { format!("s{k}") }).collect();
+                    let expected = refmodel::encode(&Ty::Seq(Box::new(Ty::Str)), &vs.to_val()).unwrap();
+                    roundtrip!(&mut out, "Vec<String>@count", Vec<String>, vs, &expected, |e| e.encode(&vs));
+                    let hm: HashMap<i32, u8> = (0..n as i32).map(|k| (k.wrapping_mul(7919), k as u8)).collect();
+                    let refty = Ty::Map(Box::new(Ty::I32), Box::new(Ty::U8));
+                    let expected = crate::c10::encode_in_iteration_order(&refty, &hm.iter_order_val());
+                    roundtrip!(&mut out, "HashMap<i32,u8>@count", HashMap<i32, u8>, hm, &expected, |e| e.encode(&hm));
+                    let bm: BTreeMap<i32, u8> = (0..n as i32).map(|k| (k.wrapping_mul(7919), k as u8)).collect();
+                    let expected = crate::c10::encode_in_iteration_order(&refty, &bm.iter_order_val());
+                    roundtrip!(&mut out, "BTreeMap<i32,u8>@count", BTreeMap<i32, u8>, bm, &expected, |e| e.encode(&bm));
+                    if n <= 16385 && scale != "miri" {
+                        let hs: HashMap<String, String> = (0..n).map(|k| (format!("k{k}"), if k % 2 == 0 { String::new() } else { format!("v{k}") })).collect();
+                        let refty = Ty::Map(Box::new(Ty::Str), Box::new(Ty::Str));
+                        let expected = crate::c10::encode_in_iteration_order(&refty, &hs.iter_order_val());
+                        roundtrip!(&mut out, "HashMap<String,String>@count", HashMap<String, String>, hs, &expected, |e| e.encode(&hs));
+                        // nested: the map is followed by more data, so a decoder that stops early misreads what follows
+                        let nested: Vec<HashMap<i32, u8>> = vec![hm.clone(), HashMap::new(), (0..3).map(|k| (k, 1u8)).collect()];
+                        let refty = Ty::Seq(Box::new(Ty::Map(Box::new(Ty::I32), Box::new(Ty::U8))));
+                        let expected = crate::c10::encode_in_iteration_order(&refty, &nested.iter_order_val());
+                        roundtrip!(&mut out, "Vec<HashMap<i32,u8>>@count", Vec<HashMap<i32, u8>>, nested, &expected, |e| e.encode(&nested));
+                    }
+                    out.count("count_boundary_collections", 1);
+                }
+            }
+
             macro_rules! coll {
                 ($name:expr, $t:ty, $refty:expr, $build:expr) => {{
                     let refty: Ty = $refty;
